@@ -266,6 +266,12 @@ def jobs(tier, seed):
                    "opts": {"hooks": True, "fault": True, "stop": "sym", "out_dom": {"*": [0, 1]}},
                    "checks": ["rollup"]},
                   reach=["C03.rollup(feature)"], min_paths=20, cost=8000, validate=100))
+    js.append(Job("d.autoretry", "vlib.stage1:h_stage1",
+                  {"shapes": [F([S(2, tags=["t1"])], tags=["t0"])] if tier == "quick" else [F([S(2, tags=["t1"]), S(1)], tags=["t0"])],
+                   "opts": {"hooks": True, "fault": True, "autoretry": 2, "out_dom": {"*": [0, 1] if tier == "quick" else [0, 2]}},
+                   "checks": ["rollup", "autoretry"]},
+                  reach=["C03.autoretry.last-attempt-decides(steps)", "C03.autoretry.no-stale-hook-error"],
+                  min_paths=50, cost=9500, validate=100))
     js.append(Job("d.rerun", "vlib.stage1:h_stage1",
                   {"shapes": [F([S(1), O(1, [(2, [])])])], "opts": {"out_dom": {"*": [0, 2]}, "stop": "sym",
                                                                "rerun_reset": True},
